@@ -472,6 +472,14 @@ print("sqlite-datetime", _c.execute("select at from t order by n").fetchall())
 print("sqlite-adapters", sorted(k[0].__name__ for k in sqlite3.adapters), sorted(sqlite3.converters))
 print("state", sys.getrecursionlimit(), gc.isenabled(), sys.excepthook is sys.__excepthook__, signal.getsignal(signal.SIGINT) is signal.default_int_handler,
       logging.getLogger().level, len(logging.getLogger().handlers), sys.getswitchinterval(), sys.displayhook is sys.__displayhook__)
+# the process environment as the program and its children see it, working directory, file-creation mask
+import subprocess
+import hashlib
+_DIG = "import os, hashlib; e = sorted((k, v) for k, v in os.environ.items() if k != 'C03_TRACE'); print([k for k, _ in e], hashlib.sha256(repr(e).encode()).hexdigest()[:16])"
+exec(_DIG.replace("print(", "print('environ', "))
+print("child-environ", subprocess.run([sys.executable, "-c", _DIG], capture_output=True, text=True).stdout)
+_um = os.umask(0); os.umask(_um)
+print("cwd", os.getcwd(), "umask", _um, "files", sorted(f for f in os.listdir(".") if not f.startswith("monkeytype.sqlite3") and f != "__pycache__"))
 # the program's own logging configuration (first basicConfig wins: nobody may have configured the root logger before)
 logging.basicConfig(stream=sys.stdout, format="LOG %(levelname)s %(name)s %(message)s", level=logging.WARNING)
 logging.getLogger("app").debug("debug record (must stay hidden)")
@@ -517,6 +525,12 @@ print("warnings shown", len(seen))
 print("filters", len(warnings.filters))
 import gc, logging, sqlite3
 print("state", sys.getrecursionlimit(), gc.isenabled(), logging.getLogger().level, len(logging.getLogger().handlers), sorted(k[0].__name__ for k in sqlite3.adapters), sys.getprofile())
+import subprocess
+_DIG = "import os, hashlib; e = sorted((k, v) for k, v in os.environ.items() if k != 'C03_TRACE'); print([k for k, _ in e], hashlib.sha256(repr(e).encode()).hexdigest()[:16])"
+exec(_DIG.replace("print(", "print('environ', "))
+print("child-environ", subprocess.run([sys.executable, "-c", _DIG], capture_output=True, text=True).stdout)
+_um = os.umask(0); os.umask(_um)
+print("cwd", os.getcwd(), "umask", _um)
 '''
 
 
